@@ -22,8 +22,8 @@ Exts  == Kinds \cup {"htm", "none", "dat"}
 OwnExt(k, e) == e = k \/ (k = "html" /\ e = "htm")
 Supported(e) == e \in Kinds \cup {"htm"}
 
-VARIABLES mode, kind, ext, ecase, order, decoy, epub, tgt, then
-vars == <<mode, kind, ext, ecase, order, decoy, epub, tgt, then>>
+VARIABLES mode, kind, ext, ecase, order, decoy, epub, tgt, then, conf
+vars == <<mode, kind, ext, ecase, order, decoy, epub, tgt, then, conf>>
 Ooxml == {"docx", "xlsx", "pptx"}
 
 \* an EPUB for the DRM table: which resources are listed in encryption.xml and how
@@ -54,11 +54,14 @@ Init == \/ /\ mode = "admit" /\ kind \in Kinds /\ ext \in Exts /\ ecase \in {"lo
            \* how the package relationship names the main part of an OOXML document: relative ("xl/workbook.xml"),
            \* absolute ("/xl/workbook.xml") or with a dot segment ("./xl/workbook.xml") - all three are the same part
            /\ tgt \in (IF kind \in Ooxml THEN {"rel", "abs", "dot"} ELSE {"rel"}) /\ then = "none"
+           \* the conformance class of a workbook or deck: Transitional, or ISO/IEC 29500 Strict (purl.oclc.org namespaces and
+           \* relationship types, also for the package relationship that names the main part)
+           /\ conf \in (IF kind \in {"xlsx", "pptx"} THEN {"transitional", "strict"} ELSE {"transitional"})
         \* "rewrite": the file is admitted (or refused) once, then the bytes under the SAME name are replaced by a document
         \* of kind `then` and it is opened again: each decision depends on the bytes the name holds at that moment
         \/ /\ mode = "rewrite" /\ kind \in Kinds /\ then \in Kinds /\ then # kind /\ ext \in Kinds \cup {"htm"}
-           /\ ecase = "lower" /\ order = "canonical" /\ decoy = "none" /\ epub = NoEpub /\ tgt = "rel"
-        \/ /\ mode = "drm" /\ kind = "epub" /\ ext = "epub" /\ ecase = "lower" /\ order = "canonical" /\ decoy = "none" /\ tgt = "rel" /\ then = "none"
+           /\ ecase = "lower" /\ order = "canonical" /\ decoy = "none" /\ epub = NoEpub /\ tgt = "rel" /\ conf = "transitional"
+        \/ /\ mode = "drm" /\ kind = "epub" /\ ext = "epub" /\ ecase = "lower" /\ order = "canonical" /\ decoy = "none" /\ tgt = "rel" /\ then = "none" /\ conf = "transitional"
            /\ epub \in {e \in EpubSpace : ((e.rights /\ e.enc # {}) \/ e.rfirst) /\ (e.rev => Cardinality(e.enc) >= 2)}      \* the order only exists when both files do
 Next == FALSE /\ UNCHANGED vars
 Spec == Init /\ [][Next]_vars
